@@ -210,7 +210,7 @@ func checkC14(rd *RunData) []Violation {
 		}
 		for _, s2 := range sets[r.Op.Key] {
 			if s2.Inv > w.r.Ret && s2.Ret < r.Inv {
-				src := source(r, s2.Ret)
+				src := source(r, s2.Inv) // promoted from the secondary tier after the newer Set began
 				vs = append(vs, Violation{"C14/stale-value-served/" + src + "," + fam, fmt.Sprintf("%s by client %d (inv=%d) returned value %d (written by %s, completed at seq %d) although the later %s by client %d (value %d, seq [%d,%d]) had completed before the read began", r.Op, r.Client, r.Inv, r.Val, w.r.Op, w.r.Ret, s2.Op, s2.Client, s2.Val, s2.Inv, s2.Ret)})
 				ruleHit = true
 				break
@@ -218,7 +218,7 @@ func checkC14(rd *RunData) []Violation {
 		}
 		for _, d := range dels[r.Op.Key] {
 			if d.Inv > w.r.Ret && d.Ret < r.Inv {
-				src := source(r, d.Ret)
+				src := source(r, d.Inv)
 				vs = append(vs, Violation{"C14/deleted-value-served/" + src + "," + fam, fmt.Sprintf("%s by client %d (inv=%d) returned value %d (written by %s, completed at seq %d) although %s by client %d (seq [%d,%d]) had completed without error before the read began", r.Op, r.Client, r.Inv, r.Val, w.r.Op, w.r.Ret, d.Op, d.Client, d.Inv, d.Ret)})
 				ruleHit = true
 				break
@@ -288,13 +288,34 @@ func checkC14(rd *RunData) []Violation {
 		}
 		switch porcupine.CheckOperationsTimeout(c14Model, ops, 5*time.Second) {
 		case porcupine.Illegal:
+			// is the violation attributable to values that came (back) from the secondary tier?
+			// drop every read whose value had been fetched from the secondary store by then and check again
+			cls := "memory"
+			var mem []porcupine.Operation
+			for _, o := range ops {
+				in := o.Input.(c14in)
+				fromSec := false
+				if in.kind == "read" {
+					for _, sr := range rd.Sec {
+						if sr.Op == "get" && sr.Found && sr.Val == in.v && int64(sr.Seq) < o.Return {
+							fromSec = true
+						}
+					}
+				}
+				if !fromSec {
+					mem = append(mem, o)
+				}
+			}
+			if len(mem) < len(ops) && porcupine.CheckOperationsTimeout(c14Model, mem, 5*time.Second) == porcupine.Ok {
+				cls = "secondary-reads-only"
+			}
 			var sb strings.Builder
 			sort.Slice(ops, func(i, j int) bool { return ops[i].Call < ops[j].Call })
 			for _, o := range ops {
 				in := o.Input.(c14in)
 				fmt.Fprintf(&sb, "[c%d %s v=%d call=%d ret=%d] ", in.client, in.kind, in.v, o.Call, o.Return)
 			}
-			vs = append(vs, Violation{"C14/not-linearizable/" + fam, fmt.Sprintf("hybrid history of key %d is not linearizable: %s", k, sb.String())})
+			vs = append(vs, Violation{"C14/not-linearizable/" + cls + "," + fam, fmt.Sprintf("hybrid history of key %d is not linearizable (%s): %s", k, cls, sb.String())})
 		case porcupine.Unknown:
 			rd.Inconclusive++
 		default:
